@@ -158,6 +158,27 @@ def gen_placement(rng, nmax=8, big_npt_share=0.3, stress=False):
     return {"n": n, "npt": npt, "rhobeg": rhobeg, "x0": x0, "xl": xl, "xu": xu, "tags": tags}
 
 
+def fixed_placements():
+    """stored corpus: past disagreements and hand-picked boundary placements, always run first"""
+    inf = 1e20
+    A = np.array
+    raw = [
+        # found by this check against the tree before `fix: evaluation points never leave the bounds by rounding`:
+        # x0 + (xu - x0) lies 46 ulp above xu (|xu| << |x0|)
+        (1, 2, 1.0, [-0.9369995049241533], [-inf], [-0.003785818666755223], "corpus:46ulp-overshoot"),
+        (2, 6, 1.0, [-3.0, -3.0], [0.0, 0.0], [5.0, 5.0], "corner-lower"),
+        (2, 6, 1.0, [9.0, 9.0], [0.0, 0.0], [5.0, 5.0], "corner-upper"),
+        (2, 5, 0.1, [0.0 + 0.01 * 0.1, 1.0 - 0.01 * 0.1], [0.0, 0.0], [1.0, 1.0], "exactly-at-1%-switch"),
+        (2, 5, 0.1, [np.nextafter(0.001, 0), np.nextafter(1.0 - 0.001, 2)], [0.0, 0.0], [1.0, 1.0], "1ulp-inside-1%-switch"),
+        (3, 7, 0.5, [0.0, 1.0, 0.5], [0.0, 0.0, 0.0], [1.0, 1.0, 1.0], "gap-exactly-2rhobeg"),
+        (3, 10, 0.5, [0.3, 0.2, 0.9], [0.0, 0.0, 0.0], [1.0, 1.0, 1.0], "gap-exactly-2rhobeg-interior-npt-max"),
+        (2, 4, 1e-3, [1e6, -1e6], [1e6 - 1.0, -inf], [1e6, -1e6 + 0.002], "large-magnitude-small-rhobeg"),
+        (1, 3, 1.0, [0.0], [-inf], [inf], "unbounded"),
+    ]
+    return [{"n": n, "npt": npt, "rhobeg": d, "x0": A(x0, dtype=float) + 0.0, "xl": A(xl, dtype=float), "xu": A(xu, dtype=float), "tags": [tag]}
+            for (n, npt, d, x0, xl, xu, tag) in raw]
+
+
 def make_objfun(rng, n, calls):
     m = int(rng.integers(max(1, n - 1), n + 3))
     A = rng.normal(size=(m, n))
@@ -326,9 +347,10 @@ def correspondence(ctx):
     # (a) coordinate initialisation
     ncase = ctx.scale(1500, 8000)
     tagcount, skipped, swaps, bigk = {}, 0, 0, 0
-    for i in range(ncase):
-        rng = np.random.default_rng([ctx.seed, 1401, i])
-        case = gen_placement(rng, nmax=8)
+    fixed = fixed_placements()
+    for i in range(-len(fixed), ncase):
+        rng = np.random.default_rng([ctx.seed, 1401, i + len(fixed)])
+        case = fixed[i + len(fixed)] if i < 0 else gen_placement(rng, nmax=8)
         try:
             calls, cap, soln = run_real_init(dfols, case, rng, i % 2)
         except core.Alarm:
@@ -348,7 +370,7 @@ def correspondence(ctx):
         for t in case["tags"]:
             tagcount[t] = tagcount.get(t, 0) + 1
         bigk += case["npt"] > 2 * case["n"] + 1
-        if i < 2:
+        if 0 <= i < 2:
             ctx.add_sample({"kind": "coordinate initialisation", "n": case["n"], "npt": case["npt"], "rhobeg": case["rhobeg"],
                             "placement": case["tags"], "x0": case["x0"].tolist(), "xl": case["xl"].tolist(), "xu": case["xu"].tolist(),
                             "first_points": [c.tolist() for c in calls[:3]]})
@@ -549,9 +571,10 @@ def search(ctx):
     ncase = ctx.scale(1500, 10000) * boost
     status = {}
     worst_cond = 0.0
-    for i in range(ncase):
-        rng = np.random.default_rng([ctx.seed, 1411, boost, i])
-        case = gen_placement(rng, nmax=8, big_npt_share=0.25, stress=(i % 5 == 4))
+    fixed = fixed_placements()
+    for i in range(-len(fixed), ncase):
+        rng = np.random.default_rng([ctx.seed, 1411, boost, i + len(fixed)])
+        case = fixed[i + len(fixed)] if i < 0 else gen_placement(rng, nmax=8, big_npt_share=0.25, stress=(i % 5 == 4))
         try:
             bad, st = check_init_case(dfols, case, rng, i % 2)
         except core.Alarm:
@@ -562,7 +585,8 @@ def search(ctx):
         ctx.seen(("c14search-init", i, case["n"], case["npt"], tuple(case["tags"])))
         worst_cond = max(worst_cond, case.get("_cond", 0.0))
         for sig, what in (bad or []):
-            report(sig, what, {"kind": "init", "seed": [ctx.seed, 1411, boost, i], "style": i % 2, "stress": bool(i % 5 == 4), "case": jsonable(case)})
+            report(sig, what, {"kind": "init", "seed": [ctx.seed, 1411, boost, i + len(fixed)], "fixed_index": (i + len(fixed) if i < 0 else None),
+                               "style": i % 2, "stress": bool(i % 5 == 4), "case": jsonable(case)})
     ctx.cov["search_init"] = {"runs": ncase, "status": status, "worst_cond_interpolation_matrix": worst_cond}
 
     # the minimal documented call of the recorded finding, always exercised
@@ -608,7 +632,10 @@ def replay(payload):
     kind = rp.get("kind")
     if kind == "init":
         rng = np.random.default_rng(rp["seed"])
-        case = gen_placement(rng, nmax=8, big_npt_share=0.25, stress=rp.get("stress", False))
+        if rp.get("fixed_index") is not None:
+            case = fixed_placements()[rp["fixed_index"]]
+        else:
+            case = gen_placement(rng, nmax=8, big_npt_share=0.25, stress=rp.get("stress", False))
         try:
             bad, st = check_init_case(dfols, case, rng, rp["style"])
         except Exception as e:
